@@ -564,16 +564,29 @@ def add_mul_wallace(
 
         c = cn
 
-    labels_a = []
-    labels_b = []
-    shift = 0
-    for i in range(n + m):
-        if c[i][0] != PLACEHOLDER_STR:
-            labels_a.append(c[i][0])
-        if c[i][1] != PLACEHOLDER_STR:
-            labels_b.append(c[i][1])
-        elif len(labels_b) == 0:
-            shift += 1
+    zero: list[gate.Label] = []
+
+    def _row_labels(row: int) -> tuple[int, list[gate.Label]]:
+        # Bits of a row with their column of the first one. A row of a thin partial
+        # product matrix may have empty columns between its bits: they are zeros.
+        cols = [i for i in range(n + m) if c[i][row] != PLACEHOLDER_STR]
+        labels = []
+        for i in range(cols[0], cols[-1] + 1):
+            if c[i][row] != PLACEHOLDER_STR:
+                labels.append(c[i][row])
+            else:
+                if not zero:
+                    zero.append(
+                        add_gate_from_tt(
+                            circuit, input_labels_a[0], input_labels_a[0], '0000'
+                        )
+                    )
+                labels.append(zero[0])
+        return cols[0], labels
+
+    # the first row always holds the least significant bit (column 0).
+    _, labels_a = _row_labels(0)
+    shift, labels_b = _row_labels(1)
 
     return reverse_if_big_endian(
         add_sum_two_numbers_with_shift(circuit, shift, labels_a, labels_b)[: n + m],
